@@ -45,6 +45,11 @@ func histories(tier string) []History {
 		History{Name: "converter-on-two-tags", Converter: true, Events: []string{"api:import:P1+P2", "drain", "api:addtag:tag/p=cport:1", "api:addtag:service/w=sport:80", "api:converters:tag/p=conv", "api:converters:service/w=conv", "drain",
 			"api:converters:tag/p=", "api:import:P3", "drain", "api:converters:service/w=conv,conv2", "drain"}},
 	)
+	h = append(h,
+		// a converter attached to a mark list (nothing re-evaluates a mark list after a restart: its streams must be
+		// queued for conversion when the attachment is restored), output invalidated by an extension
+		History{Name: "converter-on-mark", Converter: true, Events: []string{"api:import:P1+P2", "drain", "api:addtag:mark/m=id:0,1", "api:converters:mark/m=conv", "drain", "api:import:P3", "drain"}},
+	)
 	if tier == "thorough" {
 		h = append(h,
 			History{Name: "queued-imports-and-edits", Events: []string{"api:import:P1", "api:import:P2", "api:import:P3", "api:addtag:tag/d=data:foo", "step:import", "api:updtag:tag/d=sdata:bar", "drain", "api:import:P4", "drain"}},
